@@ -55,6 +55,7 @@ type Opts struct {
 	NoNestedMain bool
 	NoSameBase   bool // no two main packages with the same directory base name (binaries are named by it)
 	NoLookAlikes bool // no packages whose path extends a tracking package path
+	Twins        bool // always add the byte-identical twin files and the point-free changed files (threads e2e)
 	PkgDirNotes  bool // always put the hand-written NOTES.md into internal/cov (a possible tracking package path)
 }
 
@@ -324,7 +325,7 @@ func Generate(r *rand.Rand, o Opts) *Project {
 	if o.Decoys {
 		p.addDecoys(r)
 	}
-	p.addShapes(r)
+	p.addShapes(r, o)
 	if o.PkgDirNotes {
 		p.ExtraOld["internal/cov/NOTES.md"] = "notes kept next to the generated file\n"
 		p.ExtraNew["internal/cov/NOTES.md"] = "notes kept next to the generated file\n"
@@ -337,7 +338,7 @@ func Generate(r *rand.Rand, o Opts) *Project {
 // revision (deleted), per library a file whose only change is a comment and a type declaration
 // (changed, but no tracking point; it sorts before the other files of its package), and changed
 // Go packages in directories the go tool ignores ("_examples", ".hidden") but the property does not.
-func (p *Project) addShapes(r *rand.Rand) {
+func (p *Project) addShapes(r *rand.Rand, o Opts) {
 	for _, pk := range p.Pkgs {
 		if pk.IsMain {
 			continue
@@ -443,7 +444,7 @@ func (p *Project) addShapes(r *rand.Rand) {
 	}
 	// several changed files without any tracking point that sort first in their package (constants
 	// only): with threads > 1 their workers must give their slots back like any other
-	if r.Intn(3) == 0 {
+	if o.Twins || r.Intn(3) == 0 {
 		for k := 1; k <= 5; k++ {
 			c := func(v int) string {
 				return fmt.Sprintf("package l0\n\n// K%d is a tuning constant.\nconst K%d = %d\n", k, k, v)
@@ -466,7 +467,7 @@ func (p *Project) addShapes(r *rand.Rand) {
 	}
 	// two files with byte-identical new contents: one modified in a few lines, the other new in
 	// the revision (a copy); the new one is reported in full, whatever was computed for its twin
-	if r.Intn(3) == 0 {
+	if o.Twins || r.Intn(3) == 0 {
 		twin := func(old bool) string {
 			var b strings.Builder
 			b.WriteString("package impl\n\n// Twin has a byte-identical copy in a sibling directory.\nfunc Twin(a int) int {\n")
